@@ -47,7 +47,9 @@ def key_uri(k, with_directives=True):
     """k: dict(scheme, res, comment, pp, val) -> the string a user passes to the cache."""
     if k["scheme"] == "sim":
         # objects named private/... live in a second store that shares the sim:// scheme with the first one
-        base = ("sim://" if k["res"].startswith("private/") else "sim://bucket/") + k["res"]
+        # ... and objects named Bucket/... in a bucket whose name differs from "bucket" only in letter case (object
+        # stores are case-sensitive there)
+        base = ("sim://" if k["res"].startswith(("private/", "Bucket/", "BUCKET/")) else "sim://bucket/") + k["res"]
     elif k["scheme"] == "nosuch":
         base = "nosuch://bucket/" + k["res"]  # a scheme no registered resource handles (typo, missing plug-in)
     elif k["scheme"] == "https":
@@ -625,9 +627,9 @@ class World:
 
     def sim_download(self, uri, filepath, NotFound):
         # the resource sees the uri literally: stripping the "<<comment" is the cache's job
-        res = uri.split("://", 1)[1].split("/", 1)[1]
-        if uri.startswith("sim://private/"):
-            res = "private/" + res
+        host, res = uri.split("://", 1)[1].split("/", 1)
+        if host != "bucket":
+            res = host + "/" + res  # sim://private/x, sim://Bucket/x: the bucket is part of the object's name
         key = self._attribute_key(filepath, res)
         self._note_fetch("sim", res.split("<<")[0], key)
         self.sched("net.req", uri, 0)
@@ -991,6 +993,9 @@ class World:
         if self.knobs.get("tilde_path"):
             _os.environ["HOME"] = "/SIMFS/home"
         interpose.bind(self.fs, self.sched, self.clock, entropy_seed=mix(self.record["seed"], "entropy"), cwd=self.cwd)
+        # the clock the process reads (time.time, datetime.now) and the clock that stamps files (the file server's)
+        # need not agree: an NFS/SMB server a few seconds ahead or behind is ordinary
+        interpose._STATE["proc_skew"] = int(self.knobs.get("proc_clock_skew_ns", 0))
         simpool.bind(self.sched)
         self._patch_modules()
         if self.canary is not None:
